@@ -1026,7 +1026,10 @@ def sib7b(ctx, pid):
         elif not v[1]:
             probs.append("reader does not check the 00 marker")
     c = "keypath-layout:encode_from_bin_keypath/decode_to_bin_keypath"
-    if probs:
-        ctx.bad(c, w.loc(), probs[0], witness={"problems": probs})
+    concrete = [x for x in probs if "cannot be evaluated" not in x]
+    if concrete:
+        ctx.bad(c, w.loc(), concrete[0], witness={"problems": probs})
+    elif probs:
+        ctx.unsure(c, w.loc(), probs[0] + " on the length grid: layout table not decided")
     else:
         ctx.ok(c, w.loc(), "header = (00 | 100000) + TWO_BITS[len % 4] + (4 - len) % 4 zero bits; the reader drops 1000 if present, checks 00, reads the field and skips the same padding: 4 (+4) + (4 - len % 4) % 4 bits on both sides")
